@@ -349,8 +349,21 @@ pub fn check(mut ctx: Ctx, replay: Option<J>) -> ! {
     }
   }
   // run everything in child processes
-  let inputs: Vec<J> = recs.iter().map(|r| json!({"text": r["text"]})).collect();
-  let results = run_in_children("c05", &tlc.work_dir, &inputs, 14, Duration::from_secs(90));
+  // (the documents are dealt to the workers in a seeded shuffled order - the costly families stand together in the list,
+  // and a worker that got all of them would keep the others waiting - and the results put back in the order of `recs`)
+  let mut perm: Vec<usize> = (0..recs.len()).collect();
+  {
+    let mut prng = Rng::new(ctx.seed ^ 0x5EED);
+    for i in (1..perm.len()).rev() {
+      perm.swap(i, prng.below(i as u64 + 1) as usize);
+    }
+  }
+  let inputs: Vec<J> = perm.iter().map(|i| json!({"text": recs[*i]["text"]})).collect();
+  let shuffled = run_in_children("c05", &tlc.work_dir, &inputs, 14, Duration::from_secs(90));
+  let mut results: Vec<J> = vec![J::Null; recs.len()];
+  for (k, i) in perm.iter().enumerate() {
+    results[*i] = shuffled[k].clone();
+  }
   let mut calls = 0u64;
   // documents given up after the death budget of the child runner was spent are not judged
   let skipped: Vec<bool> = results.iter().map(|r| r["skipped"] == true).collect();
